@@ -1,7 +1,7 @@
 (* C01 — property theorems only: what "converged" means and why preconditioner / initial guess
    cannot change the answer.  (Convergence of the iteration itself is the property's premise.) *)
 From Coq Require Import List Arith Bool Ring.
-From PySDC Require Import Model.Sweep Model.Transfer Model.MultiLevel Model.Block Proofs.SweepProofs Proofs.MultiLevelProofs Proofs.MultiLevelExample Proofs.BlockProofs Proofs.BlockCorollary Proofs.BlockExample.
+From PySDC Require Import Model.Sweep Model.Transfer Model.MultiLevel Model.Block Proofs.SweepProofs Proofs.MultiLevelProofs Proofs.MultiLevelExample Proofs.BlockProofs Proofs.BlockCorollary Proofs.BlockExample Proofs.BlockRefuted.
 Import ListNotations.
 
 Section C01.
@@ -163,3 +163,13 @@ Example C01_block_hypotheses_satisfiable :
   same (bx_lev 0) (su (B p 0), sf (B p 0)) (su (bx_R0 p), sf (bx_R0 p)).
 Proof. exact bx_fixed. Qed.
 Print Assumptions C01_block_hypotheses_satisfiable.
+
+(* Known finding as a statement about the model (witness by vm_compute): with a QUADRATURE end point the communication order of
+   it_check (send, then receive) makes a step's successor start from a value that differs from the end value of the state the step
+   holds afterwards — the chain of end values is exact only in copy mode or at the fixed point *)
+Theorem C01_quadrature_chain_inexact_refuted :
+  let B := rz_run (it_check_ops 3) rz_B0 in
+  su (B 2 0) 0 tt = 6%Z /\ rz_uend (B 1 0) = 2%Z /\
+  svalid (B 1 0) = true /\ svalid (B 2 0) = true /\ ssent (B 1 0) = true.
+Proof. exact quadrature_chain_inexact_refuted. Qed.
+Print Assumptions C01_quadrature_chain_inexact_refuted.
